@@ -55,24 +55,72 @@ for (y, mo, d, hh, mi) in [(2024, 3, 10, 2, 30), (2024, 3, 10, 2, 0), (2024, 10,
 MS_CHOICES = [2, 3, 5, 10, 20, 50]
 
 
-def ticks_record(d0, d1, m):
+class OutOfScope(Exception):
+    pass
+
+
+PRE_CHOICES = [["ticks_o:2"], ["ticks_o:50", "copy"], ["copy"], ["copy", "range"], ["nice_o:2"], ["nice_o:3", "ticks_o:2"], ["redomain"],
+               ["ticks_o:3", "redomain", "copy"], ["range", "ticks_o:2"], ["nice_o:20", "copy"]]
+
+
+def used_scale(d0, d1, pre):
+    """A scale that has a past: the ticks / niced domain of a scale are those of the domain it reports NOW, whatever was
+    called on it (or on the scale it was copied from) before.  Returns the scale and the domain it reports."""
+    s = TimeScale().domain([d0, d1])
+    for call in pre or []:
+        if call.startswith("ticks_o:"):
+            list(s.ticks(int(call[8:])))
+        elif call.startswith("nice_o:"):
+            s.nice(int(call[7:]))
+        elif call == "copy":
+            s = s.copy()
+        elif call == "range":
+            s.range([5, 500])
+        elif call == "redomain":
+            s.domain([d0 - dt.timedelta(days=40), d1 + dt.timedelta(hours=5)])
+            s.domain([d0, d1])
+    if pre:
+        d0, d1 = s.domain()
+        if not (LO <= min(d0, d1) and max(d0, d1) <= HI):
+            raise OutOfScope()
+    return s, d0, d1
+
+
+def ticks_record(d0, d1, m, pre=None, default=False):
     rec = {"kind": "tticks", "dom": [proj(d0), proj(d1)], "m": m, "ticks": [], "err": ""}
     try:
-        rec["ticks"] = [proj(t) for t in TimeScale().domain([d0, d1]).ticks(m)]
+        s, d0, d1 = used_scale(d0, d1, pre)
+        rec["dom"] = [proj(d0), proj(d1)]
+        if pre:
+            rec["pre"] = list(pre)
+        rec["ticks"] = [proj(t) for t in (s.ticks() if default and m == 10 else s.ticks(m))]
+    except OutOfScope:
+        return None
     except Exception as ex:
         rec["err"] = type(ex).__name__
     return rec
 
 
-def nice_record(d0, d1, m):
+def nice_record(d0, d1, m, pre=None):
     mm = 10 if m is None else m
     rec = {"kind": "tnice", "dom": [proj(d0), proj(d1)], "m": mm, "ticks": [], "niced": [[0, 0, 0], [0, 1, 0]], "err": ""}
+    try:
+        s, d0, d1 = used_scale(d0, d1, pre)
+        if pre:
+            rec["pre"] = list(pre)
+            rec["dom"] = [proj(d0), proj(d1)]
+            if d0 == d1 or abs(d1 - d0) < 10 * MS:
+                return None
+    except OutOfScope:
+        return None
+    except Exception as ex:
+        rec["err"] = type(ex).__name__
+        return rec
     try:
         rec["ticks"] = [proj(t) for t in TimeScale().domain([d0, d1]).ticks(mm)]
     except Exception:
         rec["ticks"] = []
     try:
-        s = TimeScale().domain([d0, d1])
         if m is None:
             s.nice()
         else:
@@ -235,10 +283,18 @@ def main():
         for d0, d1 in domains(job, rng, 1, 250 * 365 * DAY):
             for m in rng.sample(MS_CHOICES, job.get("ms_per_domain", 2)) + [10]:
                 recs.append(ticks_record(d0, d1, m))
+            if rng.random() < 0.35:
+                r = ticks_record(d0, d1, rng.choice(MS_CHOICES + [10, 10]), pre=rng.choice(PRE_CHOICES), default=rng.random() < 0.7)
+                if r is not None:
+                    recs.append(r)
     elif mode == "nice":
         for d0, d1 in domains(job, rng, 10, 200 * 365 * DAY):
             for m in [None, rng.choice([2, 5, 20])]:
                 recs.append(nice_record(d0, d1, m))
+            if rng.random() < 0.35:
+                r = nice_record(d0, d1, rng.choice([None, None, 2, 5, 20]), pre=rng.choice(PRE_CHOICES))
+                if r is not None:
+                    recs.append(r)
     elif mode == "map":
         for d0, d1 in domains(job, rng, 1, 250 * 365 * DAY):
             span = d1 - d0
